@@ -13,9 +13,12 @@ from ..realize import Ctx, RealProcessor, compile_sql, run_sql
 from ..spaces import S
 
 RULE = (
-    "all histories up to the length bound over a shared pool that starts with a SQL leaf and an iteration leaf; actions "
+    "all histories up to the length bound over a shared pool, in two scenarios: starting from a SQL leaf and an "
+    "iteration leaf, and starting from a processed transfer into SQL and a processed SQL materialization (both "
+    "holding payloads; reduced factory menu); actions "
     "= any factory call of the menu (calculation, projection, selection with a list-backed sequence container, sort, "
-    "slice, deduplication, chain with itself, join, materialization, transfer) on the leaves or the two newest pool "
+    "(incl. a multi-term sort whose first term is a function expression), slice, deduplication, chain with itself, "
+    "join, materialization, transfer, projections with a preferred engine) on the two initial members or the two newest pool "
     "members (the result joins the pool), and compile / execute-twice / Processor.process / Diagnostics (with executor) on "
     "any of those members; after the last action of every history the deep fingerprint (structure, columns, bounds, str, "
     "repr, hash, pairwise equality, leaf payload content) of every older pool member must be unchanged, compiling twice "
@@ -29,6 +32,10 @@ FACTORY = (
     ("proj", ("a", "b")),
     ("sel", ("in_seq_list", R("a"), (R("b"), L(1)))),
     S((R("b"), False), (R("a"), True)),
+    S((spaces.A_PLUS_B, False), (R("c"), True)),
+    ("sel", ("gt", spaces.A_PLUS_B, L(2))),
+    ("pe", ("proj", ("b",)), "s", True, False, False),
+    ("pe", ("proj", ("c",)), "e1", True, False, False),
     ("slice", 1, 3),
     ("dedup",),
     ("chain", ("self",)),
@@ -82,12 +89,28 @@ def safe_hash(rel):
         return ("unhashable", type(e).__name__, str(e)[:80])
 
 
+def required_columns(rel):
+    from lsst.daf.relation import BinaryOperationRelation, UnaryOperationRelation
+
+    out = []
+    for n in walk.walk(rel):
+        if isinstance(n, UnaryOperationRelation):
+            out.append(tuple(sorted(t.qualified_name for t in n.operation.columns_required)))
+            for e in walk.expressions_of(n.operation):
+                out.append(tuple(sorted(t.qualified_name for t in e.columns_required)))
+        elif isinstance(n, BinaryOperationRelation):
+            for e in walk.expressions_of(n.operation):
+                out.append(tuple(sorted(t.qualified_name for t in e.columns_required)))
+    return tuple(out)
+
+
 def fingerprint(ctx, pool):
     per = []
     for r in pool:
         per.append(
             (
                 structure(r),
+                required_columns(r),
                 str(r),
                 repr(r),
                 safe_hash(r),
@@ -107,22 +130,39 @@ def candidates(n):
     return sorted({0, 1, n - 1, n - 2} & set(range(n)))
 
 
-def actions(n_pool):
+def actions(n_pool, scenario="leaves"):
     out = []
     for i in candidates(n_pool):
-        for f in range(len(FACTORY)):
+        for f in range(len(FACTORY)) if scenario == "leaves" else PROCESSED_FACTORY:
             out.append(("f", f, i))
         for e in EVALS:
             out.append(("e", e, i))
     return out
 
 
+PROCESSED_FACTORY = (2, 5, 0, 1, 8, 9)  # indices into FACTORY used in the 'processed' scenario
+
+
 class Runner:
-    def __init__(self):
+    def __init__(self, scenario="leaves"):
         self.ctx = Ctx(world())
-        self.pool = [self.ctx.leaves["X"], self.ctx.leaves["L"]]
+        self.scenario = scenario
+        if scenario == "leaves":
+            self.pool = [self.ctx.leaves["X"], self.ctx.leaves["L"]]
+        else:
+            self.pool = self.processed_members()
+        self.n0 = len(self.pool)
         self.matn = 0
         self.obs = []  # observations of evaluation actions (for the replay-equality oracle)
+
+    def processed_members(self):
+        """Two already-processed SQL relations (a transfer and a materialization holding payloads), so that
+        histories of length <= 3 reach 'operate directly on a processed marker, then compile twice'."""
+        ctx = self.ctx
+        t = RealProcessor(ctx).process(ctx.build(("L", ("xfer", "s"))))
+        m = ctx.build(("X", ("sel", spaces.P_A_GT_1), ("mat", "m0")))
+        RealProcessor(ctx).process(m)
+        return [t, m]
 
     def evaluate(self, rel):
         ctx = self.ctx
@@ -163,6 +203,8 @@ class Runner:
                 return ("executed", tuple(r1))
             if what == "process":
                 out = RealProcessor(ctx).process(rel)
+                if out is not rel:
+                    self.pool.append(out)
                 return ("processed", tuple(self.evaluate(out)))
             if what == "diagnose":
 
@@ -177,10 +219,10 @@ class Runner:
         return None
 
 
-def run_history(hist):
+def run_history(hist, scenario="leaves"):
     """Replay a history on fresh objects; check the invariants around its last action."""
     problems = []
-    r = Runner()
+    r = Runner(scenario)
     for act in hist[:-1]:
         r.step(act)
     before = fingerprint(r.ctx, r.pool)
@@ -191,7 +233,7 @@ def run_history(hist):
         what = "?"
         for idx, (x, y) in enumerate(zip(before[0], after[0])):
             if x != y:
-                names = ("structure", "str", "repr", "hash", "columns", "min_rows", "max_rows", "is_locked", "engine")
+                names = ("structure", "columns_required", "str", "repr", "hash", "columns", "min_rows", "max_rows", "is_locked", "engine")
                 diff = [names[k] for k in range(len(x)) if x[k] != y[k]]
                 what = f"pool member {idx} ({str(r.pool[idx])[:80]}) changed in {diff}"
                 break
@@ -201,6 +243,10 @@ def run_history(hist):
             elif before[2] != after[2]:
                 what = "leaf payload content changed"
         problems.append(("older-relation-changed", what))
+    for ast, why in A.polluted_expressions():
+        problems.append(("shared-expression-changed", f"expression {A.fmt(ast)} (shared between operations) {why}"))
+        A.LIB_CACHE.pop(ast, None)
+        break
     for m in r.pool:
         h = safe_hash(m)
         if h[0] != "hash":
@@ -209,7 +255,7 @@ def run_history(hist):
     # replay on the same leaves: equal relations, equal hashes
     pool1 = list(r.pool)
     r2 = Runner.__new__(Runner)
-    r2.ctx, r2.pool, r2.matn, r2.obs = r.ctx, [r.ctx.leaves["X"], r.ctx.leaves["L"]], 0, []
+    r2.ctx, r2.pool, r2.matn, r2.obs, r2.scenario, r2.n0 = r.ctx, list(r.pool[: r.n0]), 0, [], scenario, r.n0
     for act in hist:
         r2.step(act)
     if len(r2.pool) != len(pool1):
@@ -227,7 +273,7 @@ def run_history(hist):
 
 
 def _work(prefixes):
-    depth, items = prefixes
+    depth, items, scenario = prefixes
     viols = []
     states = set()
     n = 0
@@ -237,7 +283,7 @@ def _work(prefixes):
         stack = [tuple(prefix)]
         while stack:
             hist = stack.pop()
-            problems, state, n_pool, res = run_history(hist)
+            problems, state, n_pool, res = run_history(hist, scenario)
             n += 1
             states.add(state)
             kinds = [a[0] for a in hist]
@@ -247,13 +293,13 @@ def _work(prefixes):
                 v = {
                     "kind": kind,
                     "detail": detail,
-                    "case": {"history": A.to_jsonable(hist)},
-                    "program_str": " ; ".join(_fmt(a) for a in hist),
+                    "case": {"history": A.to_jsonable(hist), "scenario": scenario},
+                    "program_str": f"[{scenario}] " + " ; ".join(_fmt(a) for a in hist),
                 }
                 v["finding"] = findings.attribute("C09", v, {})
                 viols.append(v)
             if len(hist) < depth:
-                for act in actions(n_pool):
+                for act in actions(n_pool, scenario):
                     stack.append(hist + (act,))
     return {"n": n, "states": states, "violations": viols, "nontrivial": nontrivial}
 
@@ -267,18 +313,21 @@ def _fmt(a):
 
 def run(tier, seed):
     depth = 3 if tier == "quick" else 4
-    firsts = [(a,) for a in actions(2)]
-    seconds = []
-    for f in firsts:
-        # split work at depth 2 for balance: need pool size after first action
-        r = Runner()
-        r.step(f[0])
-        for a in actions(len(r.pool)):
-            seconds.append(f + (a,))
-    # depth-1 and depth-2 histories themselves are visited inside the workers (as prefixes of their extensions)
-    results = par.pmap(_work, [(depth, ch) for ch in par.chunks(seconds, 256)])
-    head = _work((1, firsts))
-    results.append(head)
+    tasks = []
+    seconds_all = []
+    heads = []
+    for scenario in ("leaves", "processed"):
+        firsts = [(a,) for a in actions(2, scenario)]
+        seconds = []
+        for f in firsts:
+            r = Runner(scenario)
+            r.step(f[0])
+            for a in actions(len(r.pool), scenario):
+                seconds.append(f + (a,))
+        seconds_all += seconds
+        tasks += [(depth, ch, scenario) for ch in par.chunks(seconds, 128)]
+        heads.append((1, firsts, scenario))
+    results = par.pmap(_work, tasks) + [_work(h) for h in heads]
     states = set()
     for r in results:
         states |= r["states"]
@@ -291,24 +340,25 @@ def run(tier, seed):
         "evaluations": n,
         "distinct_nontrivial": sum(r["nontrivial"] for r in results),
         "history_length_bound": depth,
-        "actions_at_root": len(actions(2)),
+        "actions_at_root": {sc: len(actions(2, sc)) for sc in ("leaves", "processed")},
         "rule": RULE,
         "exhaustive": True,
-        "samples": [" ; ".join(_fmt(a) for a in h) for h in seconds[:: max(1, len(seconds) // 8)]][:10],
+        "samples": [" ; ".join(_fmt(a) for a in h) for h in seconds_all[:: max(1, len(seconds_all) // 8)]][:10],
     }
     return {
         "coverage": cov,
         "violations": viols,
         "assumptions": [
             "materialization payload slots are not part of the fingerprint (C07/C10 own them)",
-            "actions address the two leaves and the two newest pool members (bounded branching)",
+            "actions address the two initial members and the two newest pool members (bounded branching)",
+            "library expression objects are shared between operations built from the same mini-AST node",
         ],
     }
 
 
 def replay(doc):
     hist = tuple(tuple(a) for a in doc["case"]["history"])
-    problems, *_ = run_history(hist)
+    problems, *_ = run_history(hist, doc["case"].get("scenario", "leaves"))
     out = []
     for kind, detail in problems:
         v = {"kind": kind, "detail": detail, "case": doc["case"], "program_str": " ; ".join(_fmt(a) for a in hist)}
